@@ -344,6 +344,15 @@ def _finite(n):
 GENERIC_ITEMS = [False]      # set by a library while it verifies a class whose items are arbitrary objects
 
 
+_OPAQUE_TRUTH = [0]
+
+
+def is_literally_empty(lst):
+    """the list value is the literal [] (length is the constant 0), not merely a list of elements of unknown kind"""
+    n = z3.simplify(lst.len) if z3.is_expr(lst.len) else lst.len
+    return (z3.is_int_value(n) and n.as_long() == 0) if z3.is_expr(n) else n == 0
+
+
 def truth(v):
     """z3 Bool: Python truthiness of v."""
     if isinstance(v, VDyn):
@@ -370,6 +379,11 @@ def truth(v):
         return z3.BoolVal(len(v.items) > 0)
     if isinstance(v, VStr):
         return v.t != z3.IntVal(str_const(""))
+    if isinstance(v, VOpaque):
+        # a value outside the model: its truthiness is an unconstrained fresh Boolean (both branches are explored; two
+        # tests of the same opaque value are not correlated, which only adds paths)
+        _OPAQUE_TRUTH[0] += 1
+        return z3.Bool("opaque_truth!%d" % _OPAQUE_TRUTH[0])
     raise Unsupported("truthiness of %r" % (v,))
 
 
